@@ -221,7 +221,8 @@ def skcRead2 (n : Nat) : M (List Int × Int × List Int × Int) := do
   if !(← good) then reject
   pure (f, z, fD, zDelta)
 
-/-- `c_d, c_a, c_Δ ∈ C_ck` and `z, f_i, z_Δ, f_{Δ_i} < q` (no lower bounds) -/
+/-- `c_d, c_a, c_Δ ∈ C_ck` and `z, f_i, z_Δ, f_{Δ_i} < q` (no lower bounds); the statement's commitment
+    `c ∈ C_ck` is tested with them in `skcVerify` -/
 def skcRanges (P : GrothPub) (cd cDelta ca : Int) (f : List Int) (z : Int) (fD : List Int) (zDelta : Int) :
     Bool :=
   testMembership P cd && testMembership P ca && testMembership P cDelta &&
@@ -236,7 +237,7 @@ def skcVerify (mode : Mode) (P : GrothPub) (c : Int) (fprime m : List Int) : M U
   let (cd, cDelta, ca) ← skcRead1
   let e ← gChalV mode P true (fun _ => P.cg ++ m ++ [x, cd, cDelta, ca])
   let (f, z, fD, zDelta) ← skcRead2 n
-  if !skcRanges P cd cDelta ca f z fD zDelta then reject
+  if !(testMembership P c && skcRanges P cd cDelta ca f z fD zDelta) then reject
   let alpha ← draw
   let ok ← liftE (skcChecks P c fprime m x cd cDelta ca e f z (fD ++ [0]) zDelta alpha)
   if !ok then reject
